@@ -96,10 +96,12 @@ impl Executor for StatefulExecutor {
             // comes before what is left of that time is looked at
             if let Some(ref wait) = testcase.config.wait {
                 debug!("waiting {}", wait);
+                // .. and it never takes longer than what is left of that time
+                let wait_timeout = timeout_left().map_or(wait.timeout, |left| left.min(wait.timeout));
                 if let Some(ref path) = wait.path {
-                    wait_until_path_or_time(&context.temp_directory.join(path), wait.timeout)
+                    wait_until_path_or_time(&context.temp_directory.join(path), wait_timeout)
                 } else {
-                    sleep(wait.timeout);
+                    sleep(wait_timeout);
                 }
             }
 
